@@ -14,6 +14,7 @@ import (
 	"encoding/json"
 	"fmt"
 	"os"
+	"path/filepath"
 	"regexp"
 	"strconv"
 	"strings"
@@ -27,6 +28,7 @@ var Prop = &core.Prop{ID: "C09", Run: run, Child: child}
 type caseRec struct {
 	Seed     uint64 `json:"seed"`
 	Compiler bool   `json:"compiler"`
+	Manual   string `json:"manual,omitempty"` // hand-written minimal history for this funcref channel instead of a generated one
 	Avoid    bool   `json:"avoid"` // generator avoids dereferencing model-stale funcrefs (known defect) so that other defects keep a clean attribution
 }
 
@@ -61,6 +63,14 @@ func run(c *core.Ctx) int {
 		lists[k] = append(lists[k], core.J(cr))
 		recs[k] = append(recs[k], cr)
 	}
+	// fixed minimal histories of the known hazard (one per funcref channel and engine): a sensitivity control in every run
+	for _, ch := range []string{"private-table", "global", "table-grow", "shared-table", "imported-global", "lookup", "in-flight"} {
+		for _, comp := range []bool{false, true} {
+			cr := caseRec{Seed: 1, Manual: ch, Compiler: comp}
+			lists[0] = append(lists[0], core.J(cr))
+			recs[0] = append(recs[0], cr)
+		}
+	}
 	var results [2][4][]core.CaseResult
 	for k := 0; k < 2; k++ {
 		batch := 1
@@ -86,6 +96,8 @@ func run(c *core.Ctx) int {
 			d.decide(cr, lists[k][i], rs)
 		}
 	}
+	evalsConc := runConcSample(c, rng)
+	d.evals += evalsConc
 	if c.Counter("mappings_unmapped_R2")+c.Counter("mappings_unmapped_R1") == 0 {
 		c.Inconclusive("no-code-segment-was-ever-unmapped")
 	}
@@ -96,10 +108,74 @@ func run(c *core.Ctx) int {
 		"PRNG histories (8-40 steps) over 2-4 guest modules (+host module, optional 2nd runtime sharing a CompilationCache) on interpreter/compiler alternately; each history run in 4 child processes (twin, clobberfree=1, default GC, efence=1 for <=14 steps); evaluation = one history decided; non-trivial = performed >=1 real close, >=1 forced GC and >=1 later observation on an instance, distinct by op-kind sequence")
 }
 
+// runConcSample: -race flavour, concurrent closers against a live instance.
+func runConcSample(c *core.Ctx, rng *core.Rng) int64 {
+	raceBin := os.Getenv("VCHECK_RACE_BIN")
+	if raceBin == "" {
+		c.Inconclusive("race-binary-missing")
+		return 0
+	}
+	n := c.N(200, 4000)
+	var cases []json.RawMessage
+	for i := 0; i < n; i++ {
+		cases = append(cases, core.J(concCase{Seed: rng.U64(), Compiler: i%2 == 0}))
+	}
+	res := core.RunCases(c, "conc", cases, core.ChildOpts{Bin: raceBin, Batch: 10, TimeoutS: 600, Procs: 4,
+		Env: []string{"GORACE=halt_on_error=0 exitcode=0"}})
+	c.Extra("phase_conc_s", time.Since(c.Start).Seconds())
+	evals := int64(0)
+	for _, r := range res {
+		if r.Crash != nil {
+			switch r.Crash.Kind {
+			case "race":
+				logb, _ := os.ReadFile(r.Crash.Log)
+				for key, rep := range core.RaceReports(logb) {
+					key = strings.ReplaceAll(key, "github.com/tetratelabs/wazero", "wazero")
+					c.Violate("race:"+key, rep, map[string]any{"case": cases[r.Index], "mode": "conc", "report": rep})
+				}
+				c.Count("conc_race_reports", 1)
+			case "timeout":
+				c.Inconclusive("watchdog-conc")
+				continue
+			default:
+				c.Violate("crash:conc:"+r.Crash.Kind+":"+crashWords(r.Crash.Detail), r.Crash.Detail, map[string]any{"case": cases[r.Index], "crash": r.Crash})
+				continue
+			}
+		}
+		var o concOut
+		if r.Out == nil || json.Unmarshal(r.Out, &o) != nil {
+			c.Inconclusive("bad-child-output-conc")
+			continue
+		}
+		if o.SetupErr != "" {
+			c.Inconclusive("conc-setup-failed")
+			continue
+		}
+		evals++
+		c.Count("conc_histories", 1)
+		c.Count("conc_live_calls", int64(o.Calls))
+		c.Count("conc_closes", int64(o.Closes))
+		c.Count("conc_sibling_instantiations", int64(o.Insts))
+		c.Count("conc_gcs", int64(o.GCs))
+		for _, w := range o.Wrong {
+			name := w
+			if i := strings.IndexByte(w, ':'); i > 0 {
+				name = w[:i]
+			}
+			c.Violate("conc:live-instance-call-fails-or-differs:"+name, w, map[string]any{"case": cases[r.Index], "wrong": o.Wrong})
+		}
+	}
+	return evals
+}
+
 type decider struct {
 	c     *core.Ctx
 	evals int64
 }
+
+var debugOn = os.Getenv("C09_DEBUG") != ""
+
+var reDigits = regexp.MustCompile(`[0-9]+`)
 
 var reStep = regexp.MustCompile(`C09STEP (\d+) (\d+)`)
 
@@ -136,7 +212,7 @@ func obsClass(o string) string {
 	case strings.HasPrefix(o, "exit:"):
 		return "exit"
 	case strings.HasPrefix(o, "trap:"), strings.HasPrefix(o, "panic:"), strings.HasPrefix(o, "err:"):
-		return strings.ReplaceAll(o, " ", "_")
+		return reDigits.ReplaceAllString(strings.ReplaceAll(o, " ", "_"), "N")
 	case strings.HasPrefix(o, "skip"):
 		return "skipped"
 	case o == "":
@@ -280,9 +356,16 @@ func (g *graph) deps(id int) map[int]bool {
 	return seen
 }
 
+func (cr caseRec) history() *History {
+	if cr.Manual != "" {
+		return ManualHistory(cr.Manual, cr.Compiler)
+	}
+	return GenHistory(cr.Seed, cr.Compiler, cr.Avoid)
+}
+
 func (d *decider) decide(cr caseRec, raw json.RawMessage, rs [4]*core.CaseResult) {
 	c := d.c
-	h := GenHistory(cr.Seed, cr.Compiler, cr.Avoid)
+	h := cr.history()
 	eng := engineName(h.Compiler)
 	var outs [4]*childOut
 	crashed := false
@@ -372,12 +455,10 @@ func (d *decider) decide(cr caseRec, raw json.RawMessage, rs [4]*core.CaseResult
 		mode := runModes[mi].name
 		desync := map[int]bool{}
 		markDesync := func(op *Op) {
-			ids := []int{op.Inst}
-			if op.Kind == "call" && (op.Name == "chain") {
-				for j := range g.deps(op.Inst) {
-					ids = append(ids, j)
-				}
+			if debugOn {
+				c.Count("dbg_markdesync_"+opName(op), 1)
 			}
+			ids := []int{op.Inst}
 			if op.Kind == "passref" && op.Channel == "st_set" {
 				if o := g.tableOwner(op.Inst); o >= 0 {
 					for j := range g.meta {
@@ -387,7 +468,7 @@ func (d *decider) decide(cr caseRec, raw json.RawMessage, rs [4]*core.CaseResult
 					}
 				}
 			}
-			if op.Name == "mem_rw" || op.Name == "mem_grow" || op.Name == "do_act" || op.Name == "pt_call2" {
+			if op.Name == "mem_grow" {
 				for j := range g.meta { // shared memories: be conservative
 					ids = append(ids, j)
 				}
@@ -424,6 +505,9 @@ func (d *decider) decide(cr caseRec, raw json.RawMessage, rs [4]*core.CaseResult
 				if k < len(xp) {
 					x = xp[k]
 				}
+				if k >= len(tp) && k >= len(xp) { // sub-op list not reached in either run (host.act was not called)
+					continue
+				}
 				c.Count("observations_compared", 1)
 				if x == t {
 					if !strings.HasPrefix(x, "skip") {
@@ -439,7 +523,17 @@ func (d *decider) decide(cr caseRec, raw json.RawMessage, rs [4]*core.CaseResult
 				}
 				if strings.HasPrefix(x, "skip") {
 					c.Count("observations_skipped_instance_missing", 1)
-					if so.Mutates || k > 0 {
+					if debugOn {
+						c.Count("dbg_skip_"+opName(so)+"_"+x+"_avoid="+fmt.Sprint(h.AvoidKnown), 1)
+					}
+					if so.Mutates {
+						markDesync(so)
+					}
+					continue
+				}
+				if so.ClosedBefore { // not a live instance: only survival and invariance are demanded
+					c.Count("observations_on_already_closed_instances_not_judged", 1)
+					if so.Mutates {
 						markDesync(so)
 					}
 					continue
@@ -455,13 +549,9 @@ func (d *decider) decide(cr caseRec, raw json.RawMessage, rs [4]*core.CaseResult
 				}
 				if inDesync {
 					c.Count("observations_not_comparable_with_twin", 1)
-					if so.Mutates {
-						markDesync(so)
+					if debugOn {
+						c.Count("dbg_desync_"+opName(so)+"_avoid="+fmt.Sprint(h.AvoidKnown), 1)
 					}
-					continue
-				}
-				if so.ClosedBefore { // not a live instance: only survival and invariance are demanded
-					c.Count("observations_on_already_closed_instances_not_judged", 1)
 					if so.Mutates {
 						markDesync(so)
 					}
@@ -595,9 +685,14 @@ func modeClass(mode string) string {
 // child side
 
 func child(mode string, in json.RawMessage) any {
+	if mode == "conc" {
+		var cc concCase
+		json.Unmarshal(in, &cc)
+		return runConc(cc)
+	}
 	var cr caseRec
 	json.Unmarshal(in, &cr)
-	h := GenHistory(cr.Seed, cr.Compiler, cr.Avoid)
+	h := cr.history()
 	run := os.Getenv("C09_RUN")
 	if run == "R3" && !h.Small {
 		return &childOut{Skipped: true}
@@ -612,8 +707,12 @@ func init() { Prop.Replay = replay }
 // replay re-runs the history recorded in a witness file in all four modes
 // (supervised children) and prints the observations side by side.
 func replay(c *core.Ctx, path string) int {
-	b, err := os.ReadFile(path)
-	if err != nil {
+	var b []byte
+	var err error
+	if strings.HasPrefix(filepath.Base(path), "manual:") { // manual:<channel>:<interpreter|compiler>
+		f := strings.Split(filepath.Base(path), ":")
+		b = core.J(map[string]any{"witness": map[string]any{"case": caseRec{Seed: 1, Manual: f[1], Compiler: len(f) > 2 && f[2] == "compiler"}}})
+	} else if b, err = os.ReadFile(path); err != nil {
 		fmt.Println(err)
 		return 2
 	}
@@ -627,7 +726,7 @@ func replay(c *core.Ctx, path string) int {
 		return 2
 	}
 	cr := w.Witness.Case
-	h := GenHistory(cr.Seed, cr.Compiler, cr.Avoid)
+	h := cr.history()
 	var obs [4][]string
 	var died [4]string
 	for mi, rm := range runModes {
